@@ -165,6 +165,9 @@ def main(args):
     from contracts import attrs, layout2
     pool.run_targets(run, "contracts.layout2", list(layout2.TARGETS))
     run.function("compiler.front_end.constraints._check_type_requirements_for_field", "pyvc: explicit size vs fixed size vs field size (contracts/layout2.py)")
+    run.function("compiler.front_end.constraints._check_allowed_in_bits", "pyvc: one error iff a byte-oriented atomic member sits in a bit-oriented definition (contracts/layout2.py)")
+    run.function("compiler.front_end.constraints._check_that_inner_array_dimensions_are_constant / _check_that_array_base_types_are_fixed_size",
+                 "pyvc: one error iff an inner dimension is omitted or not constant / iff an atomic element type has neither an explicit nor a fixed size (contracts/layout2.py)")
     pool.run_targets(run, "contracts.attrs", list(attrs.TARGETS))
     for f in attrs.FUNCTIONS:
         run.function("compiler.front_end.attribute_checker." + f, "pyvc: body executed symbolically against sidecar contract (contracts/attrs.py)")
